@@ -13,7 +13,7 @@ if st:
     sys.exit("repo not clean:\n" + st)
 r = subprocess.run(["git", "-C", REPO, "apply", "--3way", os.path.join(d, "patch.diff")], stdout=subprocess.PIPE, stderr=subprocess.STDOUT, text=True)
 if r.returncode != 0:
-    subprocess.run(["git", "-C", REPO, "checkout", "--", "."]); subprocess.run(["git", "-C", REPO, "reset", "-q"])
+    subprocess.run(["git", "-C", REPO, "reset", "-q"]); subprocess.run(["git", "-C", REPO, "checkout", "--", "."])
     sys.exit("patch does not apply: " + r.stdout)
 import shutil, tempfile
 evbak = tempfile.mkdtemp(dir=os.path.join(ROOT, ".work")) if os.path.isdir(os.path.join(ROOT, ".work")) else tempfile.mkdtemp()
